@@ -1285,8 +1285,20 @@ fn check_spec_reserved_keys(key: &[u8], mut value: &[u8]) -> Result<(), Error> {
             #[cfg(not(any(feature = "k256", feature = "rust-secp256k1")))]
             let _ = pubkey_bytes;
         }
-        _ => return Ok(()),
+        b"ed25519" => {
+            // the decoder only accepts a byte string here
+            Bytes::decode(&mut value)?;
+        }
+        _ => {
+            // any other value is a single RLP item
+            let header = Header::decode(&mut value)?;
+            value.advance(header.payload_length);
+        }
     };
+    // nothing may follow the item
+    if !value.is_empty() {
+        return Err(Error::InvalidRlpData(DecoderError::UnexpectedLength));
+    }
     Ok(())
 }
 
